@@ -56,11 +56,11 @@ func registry() map[string]PropSpec {
 	add(PropSpec{
 		ID: "C11",
 		Harnesses: []HSpec{
-			{Pkg: ".", Name: "c11_validate", Quick: map[string]int{"dims": 2, "adjs": 1}, Thorough: map[string]int{"dims": 2, "adjs": 2}, Unwind: [2]int{16, 24},
+			{Pkg: ".", Name: "c11_validate", Quick: map[string]int{"dims": 2, "adjs": 1}, Thorough: map[string]int{"dims": 2, "adjs": 2}, Unwind: [2]int{16, 24}, Budget: [2]int{120, 3000},
 				What: "validatePermutation accepts exactly what the specification sentence accepts, for every matrix, adjustment list and permutation within the bounds and every map iteration order; ShouldSkip truthiness"},
 			{Pkg: ".", Name: "c11_validate", Quick: map[string]int{"dims": 1, "adjs": 2}, Thorough: map[string]int{"dims": 1, "adjs": 3}, Unwind: [2]int{16, 24},
 				What: "same, fewer dimensions and more adjustments (repeated adjustments with conflicting skip flags)"},
-			{Pkg: ".", Name: "c11_step", Quick: map[string]int{"dims": 1, "adjs": 1}, Thorough: map[string]int{"dims": 2, "adjs": 2}, Unwind: [2]int{24, 32},
+			{Pkg: ".", Name: "c11_step", Quick: map[string]int{"dims": 1, "adjs": 1}, Thorough: map[string]int{"dims": 2, "adjs": 1}, Unwind: [2]int{24, 32}, Budget: [2]int{120, 1800},
 				What: "InterpolateMatrixPermutation: a rejected permutation leaves command, label, key, env, plugins and matrix untouched"},
 			{Pkg: ".", Name: "c11_tuple", Quick: map[string]int{"long": 5}, Thorough: map[string]int{"long": 7}, Unwind: [2]int{32, 48},
 				What: "tuple equality is per dimension: two dimensions, one adjustment, permutation and adjustment values of 1 or `long` symbolic bytes over the characters that occur as constants in step_command_matrix.go (so separators of any internal encoding are in the alphabet): accepted iff equal in every dimension and not skipped"},
